@@ -60,7 +60,7 @@ def main():
     ids = sys.argv[1:] or (["BASE"] + sorted(d for d in os.listdir(os.path.join(V, "seeded")) if os.path.isdir(os.path.join(V, "seeded", d))))
     path = os.path.join(V, "seeded", "MATRIX.json") if not os.environ.get("MATRIX_PIDS") else "/tmp/MATRIX_partial.json"
     M = json.load(open(path)) if os.path.exists(path) else {}
-    with ThreadPoolExecutor(max_workers=5) as ex:
+    with ThreadPoolExecutor(max_workers=int(os.environ.get("MATRIX_WORKERS", "5"))) as ex:
         for sid, res in ex.map(one, ids):
             M[sid] = res
             flagged = {p: r["kind"] for p, r in res.items() if isinstance(r, dict) and r.get("kind") != "ok"} if "error" not in res else res
